@@ -27,7 +27,9 @@ def one_run(ctx, lc, tid, seq, req, nflat, flatcrit_milli, conv_j, seed, budget)
     shutil.rmtree(outdir, ignore_errors=True)
     os.makedirs(outdir)
     nbins, mn10, mx10 = req
-    conv = math.exp(1.0 / 2 ** conv_j)
+    # the threshold lies strictly between two values of the f schedule (ln f = 2^-k): on a schedule value the code's
+    # float comparison f > convergence is a tie that may go either way
+    conv = math.exp(1.4 / 2 ** conv_j)
     kmax = conv_j + 1
     rec = rngshim.Recorder(seed, budget=budget)
     del wl._VERIF_EVENTS[:]
@@ -41,7 +43,7 @@ def one_run(ctx, lc, tid, seq, req, nflat, flatcrit_milli, conv_j, seed, budget)
     log = rec.take()
     ctx.evaluations += 1
     case = {"seq": seq, "nbins": nbins, "binmin": mn10 / 10.0, "binmax": mx10 / 10.0, "nflat": nflat, "flatcrit": flatcrit_milli / 1000.0,
-            "convergence": "exp(1/%d)" % 2 ** conv_j, "seed": seed}
+            "convergence": "exp(1.4/%d)" % 2 ** conv_j, "seed": seed}
     budget_hit = out[0] == "exc" and out[1] == "TapeExhausted"
     if out[0] == "timeout":
         ctx.violation("run-does-not-terminate", case)
@@ -78,8 +80,7 @@ def one_run(ctx, lc, tid, seq, req, nflat, flatcrit_milli, conv_j, seed, budget)
     cfg = {"nb": init["nbins_actual"], "rmin": init["rmin"], "rmax": init["rmax"], "nbt": init["nbins_target"], "nflat": init["nflatchk"],
            "kmax": kmax, "fnum": flatcrit_milli, "fden": 1000, "conv": units(math.log(init["convergence"]), kmax),
            "reqn": nbins, "reqminnum": mn10, "reqmaxnum": mx10, "reqden": 10}
-    if cfg["conv"] == 10 ** 9:
-        cfg["conv"] = int(math.floor(math.log(init["convergence"]) * 2 ** kmax))
+    cfg["conv"] = int(math.floor(math.log(init["convergence"]) * 2 ** kmax))
     ev.append({"ev": "init", "input": list(init["input"]), "start": list(init["start"]), "startkappa": common.fx(init["kold"]),
                "idx_old": init["idx_old"], "bincts": [common.fx(x) for x in init["bincts"]], "lnf": units(math.log(init["f"]), kmax), "cfg": cfg})
     for e in events[1:]:
